@@ -48,6 +48,7 @@ def gen_case(r, idx, tmpdir):
                 for kindk, name, pre in (("points", "point", "pt"), ("signals", "signal", "sg"), ("periphs", "periph", "pe")):
                     for p in b[kindk]:
                         if r.chance(1, 2): s["act"].append("hl %s %s%d a%d" % (name, pre, p["id"], r.choice(p["aspects"])[0]))
+            if r.chance(1, 4): s["act"].insert(r.below(len(s["act"]) + 1), "sysreset")       # a system reset in mid-session (what it allocates is released at stop too)
             if r.chance(1, 2): s["act"] += ["sim_up - 87 %02x" % r.below(256), "sim_up - 8b ff"]
             cand = [(bi, p) for bi, b in enumerate(cfg["boards"]) if bi in truth and not (b["uid"][0] & 0x10) for p in b["points"] if p["num"] <= 127 and p["aspects"][0][1] <= 127]
             if cand and r.chance(1, 3):
